@@ -57,9 +57,12 @@ def compute_ir(objects, options, prefix="vf"):
 
     from .kernels import ffcx_options
 
+    from .kernels import time_limit
+
     p = ffcx_options(options)
-    analysis = analyze_ufl_objects(list(objects), p["scalar_type"])
-    return _compute_ir(analysis, {}, prefix, p, False), p
+    with time_limit(150):  # time and memory budget of the symbolic phase (raises kernels.Timeout)
+        analysis = analyze_ufl_objects(list(objects), p["scalar_type"])
+        return _compute_ir(analysis, {}, prefix, p, False), p
 
 
 def integral_asts(form, options=None, mode="full"):
